@@ -275,11 +275,13 @@ def w_programs(payload, rep):
         rng = random.Random(f'{tag}:{i}')
         prog = ts.program(rng, i)
         texts = oracle_program(prog, rng, rep, n_random, 'program')
+        variants = []
         for key, plain, text in finding_variants(prog)[:4]:
             oracle_variant(key, plain, text, rep, 'finding')
-            texts.append(text)
+            variants.append(text)
         if not oracle_only and texts:
             strict_compare(texts, rep, 'program')
+            c13.compare_texts(variants, rep, False, 'finding')   # malformed stream: lenient
 
 
 def w_small(payload, rep):
